@@ -944,3 +944,48 @@ MA('C02', 'inner defined for p != 2', NPYF,
    'NumpyTensorSpaceConstWeighting.inner',
    'if self.exponent != 2.0:...', 'if False:\n    pass\nelse:\n    inner = self.const * _inner_default(x1, x2)\n    return inner',
    'inner:const[p=1')
+PSPF = 'odl/space/pspace.py'
+DSPF = 'odl/discr/discr_space.py'
+MA('C02', 'pspace array weights without the 1/p root', PSPF,
+   'ProductSpaceArrayWeighting.norm',
+   'norms *= self.array ** (1.0 / self.exponent)', 'norms *= self.array',
+   'norm:pspace-array[p=3')
+MA('C02', 'pspace const dist treats p=1 like inf', PSPF,
+   'ProductSpaceConstWeighting.dist',
+   "if self.exponent == float('inf'):...",
+   "if self.exponent == float('inf'):\n    return self.const * np.linalg.norm(dnorms, ord=self.exponent)\nelse:\n    return self.const ** (1 / 2.0) * np.linalg.norm(dnorms, ord=self.exponent)",
+   'dist:pspace-const')
+MA('C02', 'pspace array inner sums without weights', PSPF,
+   'ProductSpaceArrayWeighting.inner', 'inner = np.dot(inners, self.array)',
+   'inner = np.sum(inners)', 'inner:pspace-array')
+MA('C02', 'discr norm scales the boundary with exponent 1', DSPF,
+   'DiscretizedSpace._norm',
+   'func_list = _scaling_func_list(bdry_fracs, exponent=self.exponent)',
+   'func_list = _scaling_func_list(bdry_fracs, exponent=1.0)', 'norm:discr')
+MA('C02', 'discr dist scales only one operand', DSPF,
+   'DiscretizedSpace._dist',
+   'return self.tspace.dist(self.tspace.element(arrs[0]), self.tspace.element(arrs[1]))',
+   'return self.tspace.dist(self.tspace.element(arrs[0]), y.tensor)',
+   'dist:discr')
+MA('C02', 'corner cells scaled only once', DSPF, 'DiscretizedSpace._inner',
+   'x_arr = apply_on_boundary(x, func=func_list, only_once=False)',
+   'x_arr = apply_on_boundary(x, func=func_list, only_once=True)',
+   'inner:discr-2d')
+MA('C02', 'scaling uses the fraction itself', DSPF, '_scaling_func_list',
+   'func_list_entry.append(scaling(frac_r ** (1 / exponent)))',
+   'func_list_entry.append(scaling(frac_r))', 'discr', nth=0)
+MA('C02', 'right boundary fraction measured from the first cell',
+   'odl/discr/partition.py', 'RectPartition.boundary_cell_fractions',
+   'right_frac = 0.5 + (bmax - cvec[-1]) / (cvec[-1] - cvec[-2])',
+   'right_frac = 0.5 + (bmax - cvec[-1]) / (cvec[-1] - cvec[0])',
+   'boundary_cell_fractions')
+MA('C02', 'default weighting is 1 for every exponent', DSPF,
+   'uniform_discr_frompartition',
+   "if exponent == float('inf') or partition.ndim == 0:...",
+   'weighting = 1.0', 'uniform_discr_frompartition')
+MA('C02', 'space norm forwards to dist', NPYF, 'NumpyTensorSpace._norm',
+   'return self.weighting.norm(x)', 'return self.weighting.dist(x, x)',
+   'NumpyTensorSpace._norm')
+MA('C02', 'LinearSpace.inner swaps its arguments', 'odl/set/space.py',
+   'LinearSpace.inner', 'return self.field.element(self._inner(x1, x2))',
+   'return self.field.element(self._inner(x2, x1))', 'LinearSpace.inner')
